@@ -328,6 +328,210 @@ def mutate(rng, t, pool):
     return t, 'insert'
 
 
+# ---- field lists with boundary package lengths -------------------------------------------------------------
+def _plen(v, k):
+    """PkgLength v in k bytes, clamped to what k bytes can hold"""
+    return enc_pkglen_width(max(0, min(v, pkglen_max(k))), k)
+
+
+def _boundary(rng, exact):
+    """a package length at or next to the exact one, zero, one, or far too long"""
+    return rng.choice([0, 1, exact - 1, exact, exact, exact + 1, exact + 2, exact + rng.choice([7, 40, 300]), rng.randrange(0, exact + 4)])
+
+
+FE_KINDS = ['named', 'reserved', 'access', 'extaccess', 'connname', 'connbuf']
+
+
+def field_element(rng, kind, mode=None, size_enc=None, k=None):
+    """one field element; connbuf: mode in zero/one/short/exact/over/random, size_enc in 0 (no size operand) / 1 / 2 / 4"""
+    k = k or rng.choice([1, 1, 1, 2, 3, 4])
+    if kind == 'named':
+        return rand_nameseg(rng) + _plen(rng.choice([0, 1, 8, 16, 63, 64, 0xfff, rng.randrange(0, 70000)]), k)
+    if kind == 'reserved':
+        return [0x00] + _plen(rng.choice([0, 1, 8, 63, 64, 0x1000, rng.randrange(0, 70000)]), k)
+    if kind == 'access':
+        return [0x01, rng.choice([0, 1, 2, 3, 4, 5, rng.randrange(256)]), rng.choice([0, 2, 4, 6, 8, 0xa, 0xb, 0xc, 0xd, 0xe, 0xf, rng.randrange(256)])]
+    if kind == 'extaccess':
+        return [0x03, rng.choice([0, 1, 5, rng.randrange(256)]), rng.choice([0xb, 0xe, 0xf, rng.randrange(256)]), rng.randrange(256)]
+    if kind == 'connname':
+        return [0x02] + rng.choice([rand_nameseg(rng), [0x5c] + rand_nameseg(rng), [0x2e] + rand_nameseg(rng) + rand_nameseg(rng), [0x00], [0x5e, 0x5e] + rand_nameseg(rng)])
+    # Connection(Buffer): 02 11 PkgLength [size operand] data
+    mode = mode or rng.choice(['zero', 'one', 'short', 'exact', 'exact', 'over', 'random'])
+    size_enc = rng.choice([0, 1, 1, 2, 4]) if size_enc is None else size_enc
+    data = rand_bytes(rng, rng.choice([0, 1, 2, 3, 8, 20]))
+    if mode == 'zero' and rng.random() < 0.7:
+        # nothing inside: what follows is read again as field elements (a byte below 0x40 makes "00 xx" a reserved field)
+        return [0x02, 0x11] + _plen(0, k) + [rng.choice([0x00, 0x01, 0x08, 0x10, 0x3f, rng.randrange(0x40)])]
+    declared = rng.choice([len(data), len(data), len(data) + 1, max(len(data) - 1, 0), 0, 0xff, 0xffff, 0x7fffffff, 0xffffffff])
+    size = {0: [], 1: [0x0a, declared & 0xff], 2: [0x0b] + [declared & 0xff, (declared >> 8) & 0xff],
+            4: [0x0c] + [(declared >> (8 * i)) & 0xff for i in range(4)]}[size_enc]
+    body = size + data
+    exact = len(body) + k
+    v = {'zero': 0, 'one': 1, 'short': exact - rng.choice([1, 2, 3]), 'exact': exact, 'over': exact + rng.choice([1, 2, 7, 40, 1000]),
+         'random': rng.randrange(0, exact + 6)}[mode]
+    return [0x02, 0x11] + _plen(v, k) + body
+
+
+def field_container(rng, which, elems, outer=None):
+    """Field / IndexField / BankField around the given field elements; outer = None (exact) or a delta on the package length"""
+    flags = rng.choice([0x00, 0x01, 0x05, 0x11, 0x35, 0x7f, rng.randrange(256)])
+    body = []
+    if which == 'field':
+        op = [0x5b, 0x81]
+        body += _nm('REG0')
+    elif which == 'index':
+        op = [0x5b, 0x86]
+        body += _nm('IDX0') + _nm('DAT0')
+    else:
+        op = [0x5b, 0x87]
+        body += _nm('REG0') + _nm('BNK0') + rng.choice([[0x00], [0x01], [0x0a, rng.randrange(256)], [0x0b, 1, 2], _nm('AAAA')])
+    body += [flags]
+    for e in elems:
+        body += e
+    k = rng.choice([1, 1, 2, 2, 3, 4])
+    if len(body) + k > pkglen_max(k):
+        k = 2
+    exact = len(body) + k
+    v = exact if outer is None else max(0, exact + outer)
+    return op + _plen(v, k) + body
+
+
+FIELD_PRELUDE = ([0x5b, 0x80] + _nm('REG0') + [0x01, 0x0b, 0x00, 0x30, 0x0a, 0x40] +          # OperationRegion(REG0, SystemIO, 0x3000, 0x40)
+                 [0x08] + _nm('AAAA') + [0x0a, 0x01])                                          # Name(AAAA, 1)
+FIELD_PRELUDE2 = _pkg([0x5b, 0x81], _nm('REG0') + [0x01] + _nm('IDX0') + [0x08] + _nm('DAT0') + [0x08] + _nm('BNK0') + [0x08])
+
+
+def fieldlist_systematic():
+    """deterministic part: every container x every Connection(Buffer) length mode x every size operand, the element repeated"""
+    import random as _r
+    out = []
+    rng = _r.Random(0x6669656c)
+    for which in ('field', 'index', 'bank'):
+        for mode in ('zero', 'one', 'short', 'exact', 'over'):
+            for size_enc in (0, 1, 2, 4):
+                for rep in (2, 3):
+                    elems = []
+                    for _ in range(rep):
+                        elems.append(field_element(rng, 'connbuf', mode, size_enc, rng.choice([1, 1, 2, 3, 4])))
+                        if mode != 'zero':
+                            elems.append(field_element(rng, 'named', k=1))
+                    out.append(FIELD_PRELUDE + FIELD_PRELUDE2 + field_container(rng, which, elems))
+    # the plain shape of a zero-length connection buffer: 02 11 00 followed by a byte that reads as a reserved field
+    for which in ('field', 'index', 'bank'):
+        for rep in (1, 2, 3, 4):
+            out.append(field_container(rng, which, [[0x02, 0x11, 0x00, 0x08]] * rep))
+            out.append(FIELD_PRELUDE + field_container(rng, which, [[0x02, 0x11, 0x00, 0x08]] * rep) + [0x08] + _nm('ZZZZ') + [0x01])
+    return out
+
+
+def fieldlist_case(rng):
+    """a table made of field containers whose lists repeat every element kind 2-4 times with boundary lengths"""
+    t = []
+    if rng.random() < 0.8:
+        t += FIELD_PRELUDE
+    if rng.random() < 0.5:
+        t += FIELD_PRELUDE2
+    for _ in range(rng.choice([1, 1, 2, 3])):
+        which = rng.choice(['field', 'field', 'index', 'bank'])
+        elems = []
+        kinds = [rng.choice(FE_KINDS) for _ in range(rng.choice([1, 2, 3]))]
+        for kind in kinds:
+            for _ in range(rng.choice([2, 3, 4])):
+                elems.append(field_element(rng, kind))
+        if rng.random() < 0.5:
+            rng.shuffle(elems)
+        outer = rng.choice([None, None, None, -1, 1, -2, 2, 5, -len(elems[-1])])
+        c = field_container(rng, which, elems, outer)
+        if rng.random() < 0.3:
+            c = _pkg(rng.choice([[0x10], [0x5b, 0x82]]), rng.choice([_nm('_SB_'), _nm('DEV0'), [0x5c] + _nm('_SB_')]) + c)
+        t += c
+        if rng.random() < 0.6:
+            t += [0x08] + rand_nameseg(rng) + [0x0a, rng.randrange(256)]
+    return t
+
+
+# ---- names that PrettyPrint / toString treat specially, with values of every encoding ----------------------------
+SPECIAL_NAMES = ['_HID', '_HID', '_HID', '_CID', '_ADR', '_UID', '_STA', '_CRS', '_PRS', '_PRT', '_BBN', '_SEG', '_STR', '_DDN',
+                 '_SUN', '_INI', '_REG', '_OSI', '_REV', '_OS_', '_GL_', '_S5_', '_PSS', '_PR0', '_Q00', '_L00', '_E00', '_T_0']
+
+
+def data_value(rng, enc=None):
+    """a data object in the given (or a random) encoding with random / boundary contents"""
+    enc = enc or rng.choice(['zero', 'one', 'ones', 'byte', 'word', 'dword', 'dword', 'dword', 'qword', 'string', 'buffer', 'package', 'name'])
+    edge = rng.random() < 0.35
+    if enc == 'zero':
+        return [0x00]
+    if enc == 'one':
+        return [0x01]
+    if enc == 'ones':
+        return [0xff]
+    if enc == 'byte':
+        return [0x0a, rng.choice([0, 0xff, 0x7f, 0x80]) if edge else rng.randrange(256)]
+    if enc in ('word', 'dword', 'qword'):
+        n = {'word': 2, 'dword': 4, 'qword': 8}[enc]
+        op = {'word': 0x0b, 'dword': 0x0c, 'qword': 0x0e}[enc]
+        if edge:
+            return [op] + rng.choice([[0x00] * n, [0xff] * n, [0x7f] + [0xff] * (n - 1), [0xff] + [0x00] * (n - 1), [0x41, 0xd0] + [0x0c, 0x0f][:n - 2] + [0] * max(n - 4, 0)])[:n + 1]
+        return [op] + rand_bytes(rng, n)
+    if enc == 'string':
+        return [0x0d] + [rng.randrange(1, 0x80) for _ in range(rng.choice([0, 1, 4, 7, 8, 20]))] + [0x00]
+    if enc == 'buffer':
+        data = rand_bytes(rng, rng.choice([0, 1, 4, 7, 8, 16]))
+        return _pkg([0x11], [0x0a, rng.choice([len(data), len(data), 0, len(data) + 3])] + data)
+    if enc == 'package':
+        n = rng.choice([0, 1, 2, 3])
+        body = []
+        for _ in range(n):
+            body += data_value(rng, rng.choice(['zero', 'byte', 'dword', 'string', 'qword']))
+        return _pkg([0x12], [rng.choice([n, n, n + 1, 0])] + body)
+    return rand_nameseg(rng)
+
+
+def special_names_systematic():
+    """deterministic part: Name(_HID, v) for every encoding, and every 5-bit letter code in each EISA letter position"""
+    import random as _r
+    rng = _r.Random(0x5f484944)
+    out = []
+    for nmx in ('_HID', '_CID', '_ADR', '_UID'):
+        for enc in ('zero', 'one', 'ones', 'byte', 'word', 'dword', 'qword', 'string', 'buffer', 'package'):
+            out.append([0x08] + _nm(nmx) + data_value(rng, enc))
+    for code in range(32):
+        for pos in range(3):
+            codes = [rng.randrange(1, 27) for _ in range(3)]
+            codes[pos] = code
+            ident = (codes[0] << 26) | (codes[1] << 21) | (codes[2] << 16) | rng.randrange(0x10000)
+            be = [(ident >> 24) & 0xff, (ident >> 16) & 0xff, (ident >> 8) & 0xff, ident & 0xff]
+            dev = _pkg([0x5b, 0x82], _nm('DEV0') + [0x08] + _nm('_HID') + [0x0c] + be)
+            out.append(dev if pos else [0x08] + _nm('_HID') + [0x0c] + be)
+    return out
+
+
+def special_name_case(rng):
+    """devices / scopes / top level with specially named objects carrying values of every encoding"""
+    def named(nmx):
+        r = rng.random()
+        if r < 0.7:
+            return [0x08] + _nm(nmx) + data_value(rng)
+        if r < 0.8:
+            return _pkg([0x14], _nm(nmx) + [rng.randrange(8), 0xa4] + data_value(rng))            # Method(nm){Return(v)}
+        if r < 0.9:
+            return _pkg([0x5b, 0x82], _nm(nmx) + data_value(rng, rng.choice(['dword', 'byte', 'string'])))   # Device(nm){ v }
+        return _pkg([0x10], _nm(nmx) + [0x08] + _nm(rng.choice(SPECIAL_NAMES)) + data_value(rng))
+    t = []
+    for _ in range(rng.choice([1, 1, 2, 3])):
+        items = []
+        for _ in range(rng.choice([1, 2, 3, 4])):
+            items += named(rng.choice(SPECIAL_NAMES))
+        r = rng.random()
+        if r < 0.4:
+            t += _pkg([0x5b, 0x82], rand_nameseg(rng) + items)
+        elif r < 0.6:
+            t += _pkg([0x10], [0x5c] + _nm('_SB_') + _pkg([0x5b, 0x82], rand_nameseg(rng) + items))
+        else:
+            t += items
+    return t
+
+
 def generated_tables(rng, n):
     """well-formed tables from the grammar generator (see gen_program); list of lists of payloads"""
     out = []
@@ -353,14 +557,35 @@ def parse_cases(rng, n, tier):
         out.append((join_tables([real['parser-testsuite-DSDT.aml']]), 'real'))
     for g in gens[:20]:
         out.append((join_tables(g), 'generated'))
+    # field lists with boundary package lengths and specially named objects: a deterministic part in every run, then random ones
+    sysf = fieldlist_systematic()
+    sysn = special_names_systematic()
+    nf = {'quick': 60, 'thorough': len(sysf), 'search': 60}[tier]
+    nn = {'quick': 70, 'thorough': len(sysn), 'search': 70}[tier]
+    for t in sysf[-24:] + rng.sample(sysf[:-24], max(0, min(nf, len(sysf)) - 24)):
+        out.append((join_tables([t]), 'fieldlist'))
+    for t in sysn[:40] + rng.sample(sysn[40:], max(0, min(nn, len(sysn)) - 40)):
+        out.append((join_tables([t]), 'special-name'))
+    pool += sysf[::7] + sysn[::9]
     big_budget = {'quick': 40, 'thorough': 800, 'search': 100}[tier]      # mutations of the 8.6 KB DSDT
     big_agree = {'quick': 1, 'thorough': 20, 'search': 0}[tier]           # ... of which with model agreement (13 s each)
     while len(out) < n:
         r = rng.random()
-        if r < 0.12:
+        if r < 0.08:
             out.append((join_tables([rand_bytes(rng, rng.choice([0, 1, 2, 3, 5, 8, 13, 30, 80]))]), 'random'))
-        elif r < 0.3:
+        elif r < 0.2:
             out.append((join_tables([soup(rng, rng.choice([3, 6, 10, 16, 30, 60, 150]))]), 'soup'))
+        elif r < 0.3:
+            if rng.random() < 0.6:
+                t = fieldlist_case(rng)
+                how = 'fieldlist'
+            else:
+                t = special_name_case(rng)
+                how = 'special-name'
+            if rng.random() < 0.25:
+                t, _ = mutate(rng, t, pool)
+                how += '-mut'
+            out.append((join_tables([t]), how))
         elif r < 0.55:
             t, how = mutate(rng, rng.choice(SEEDS), pool)
             if rng.random() < 0.3:
